@@ -166,7 +166,12 @@ def run(ck: Check):
     for data in strings_upto([b'"', b"\\", b"U", b"X", b"u", b"0", b"{", b"}"], 5 if quick else 7, 3):
         if b'"' in data and b"\\" in data:
             one("jsstr", b'"' + data + b'"')
-    jsfrag = [b"\\U0041", b"\\X41", b"\\U{41}", b"\\N", b"U", b"X", b"'", b'"', b"\\", b"\\x41", b"\\u1234", b"\\u{1F600}", b"\\u{}", b"\\u{0000041}", b"\\u{000000000061}", b"\\xg", b"a", b"b;",
+    # bytes that would start a multi-byte UTF-8 character, inside strings right before the closing quote or an escape
+    # (a Latin-1 file): each is one character of the string, the quote still closes it
+    for data in strings_upto([b'"', b"\\", b"x", b"4", b"\xe9", b"\xc3", b"\xf0", b"a"], 4 if quick else 6, 1):
+        if any(c in data for c in (b"\xe9", b"\xc3", b"\xf0")):
+            one("jsstr", b's = "' + data + b'" + t;')
+    jsfrag = [b"caf\xe9", b"\xc3", b"\xf0\x9f", b"\xe2\x80", b"\\U0041", b"\\X41", b"\\U{41}", b"\\N", b"U", b"X", b"'", b'"', b"\\", b"\\x41", b"\\u1234", b"\\u{1F600}", b"\\u{}", b"\\u{0000041}", b"\\u{000000000061}", b"\\xg", b"a", b"b;",
               b"\n", b"\\'", b'\\"', b"x = ", b"DDBEGIN\n", b"DDEND\n", b"\\u{12", b"\xff"]
     atfrag = [b"<a", b"<b-c", b"< d", b">", b" e", b" f=", b"g", b'"h i"', b"'j'", b"=", b" ", b"\n",
               b"/", b"k:l", b'"', b"'", b"<", b"x>y", b"DDBEGIN\n", b"DDEND\n", b"\t", b"\r"]
